@@ -17,6 +17,7 @@ limitations under the License.
 #include "expirecontainer.h"
 
 #include <photon/thread/thread.h>
+#include <photon/common/verif-hooks.h>
 
 ExpireContainerBase::ExpireContainerBase(uint64_t lifespan,
                                          uint64_t timer_cycle,
@@ -57,6 +58,7 @@ uint64_t ExpireContainerBase::expire() {
             bool ret = (x->_timeout.expiration() < photon::now) ||
                        (_set.size() > _num_limit);
             if (ret) {
+                VERIF_COV(C_OBJCACHE_EXPIRE);
                 _set.erase(x);
             }
             return ret;
@@ -100,6 +102,7 @@ auto ObjectCacheBase::ref_acquire(const Item& key_item,
         if (item->_recycle) {
             holder = end();
             item = nullptr;
+            VERIF_COV(C_OBJCACHE_RECYCLE_WAIT);
             blocker.wait(_lock);
         } else {
             item->_refcnt++;
@@ -111,6 +114,9 @@ auto ObjectCacheBase::ref_acquire(const Item& key_item,
         if (!item->_obj && item->_failure <= ts) {
             ctor(item);
             if (!item->_obj) item->_failure = photon::now;
+#ifdef PHOTON_VERIF
+            if (!item->_obj) VERIF_COV(C_OBJCACHE_CTOR_FAIL);
+#endif
         }
     }
     if (!item->_obj) {
@@ -140,6 +146,7 @@ void* ObjectCacheBase::ref_release(ItemPtr item, bool recycle, bool destroy) {
             }
         }
     }
+    VERIF_POINT(P_OBJCACHE_RELEASE);
     if (recycle) {
         sem.wait(1);
         {
